@@ -15,6 +15,11 @@ The FILE the user starts from varies in what `write_shelx_file()` does not write
 continuation lines, a second SFAC/FVAR line, SHELXL's own header lines, REM lines, Q-peaks): the list in memory before
 the run and the list after the reload then differ in length above and below UNIT.
 
+The BYTES of that file vary too (`file_bytes`: CR LF, lone CR, both, no final line end, UTF-8 outside ASCII, blanks at
+line ends; the stand-in can write its result with CR LF), and so do the NAME of the job (dots, a blank, capitals, a
+non-ASCII letter) and the way the path is given to `read_file()` (relative, absolute, './', a pathlib.Path): files are
+compared by content hash under the case's own name.
+
 Streams (DESIGN 3.2):
   protocol   implementation vs model (`refine Fix.all` in ShelxModel/C19.lean): .res/.shx-bak by content, the .ins parsed
              back, shxsaves/, in-memory ACTA position / cycles / rest of the model, raised or returned
@@ -56,6 +61,11 @@ case "$RES" in
     while IFS= read -r l; do
       case "$l" in HKLF*) printf '%s\n' "$atom" ;; esac
       printf '%s\n' "$l"
+    done < "$n.ins" > "$n.res" ;;
+  crlf)     # the same, written by a Windows build: every line ends in CR LF
+    while IFS= read -r l; do
+      case "$l" in HKLF*) printf '%s\r\n' "$atom" ;; esac
+      printf '%s\r\n' "$l"
     done < "$n.ins" > "$n.res" ;;
   relaid)   # the way SHELXL lays a result out: its own two lines after TITL, REM lines, suggestions and peaks after END
     while IFS= read -r l; do
@@ -229,6 +239,55 @@ def file_text(f):
     return '\n'.join(file_lines(f)) + '\n'
 
 
+#: the BYTES of the user's file (what a text-mode round trip, a re-encoding or a line-wise rewrite would not preserve)
+ENCODINGS = ['lf', 'crlf', 'cr', 'mixed', 'noeol', 'utf8', 'trail', 'win']
+ENC_MORE = ENCODINGS[1:]
+
+
+def file_bytes(f):
+    """the file as bytes: line ends LF / CR LF (Windows builds of SHELXL, ShelXle) / lone CR / both in one file; no line
+    end after the last line; characters outside ASCII (UTF-8: the only 8-bit form `read_file()` accepts here); blanks
+    and a tab at line ends; 'win' = CR LF + UTF-8 + no final line end"""
+    enc = f.get('enc') or 'lf'
+    lines = file_lines(f)
+    if enc in ('utf8', 'win'):
+        lines = [ln + ' f\xfcr M\xfcller, \u03bb = 0.71073 \xc5' if ln.startswith('TITL') else ln for ln in lines]
+        i = next(k for k, ln in enumerate(lines) if ln.startswith('FVAR'))
+        lines.insert(i, 'REM \u03b2 = 94.13\xb0 \u2013 gemessen bei \u2212173 \xb0C')
+    if enc == 'trail':
+        lines = [ln + ['', '  ', '\t', ' \t '][k % 4] if ln.strip() and not ln.rstrip().endswith('=') else ln
+                 for k, ln in enumerate(lines)]
+    eol = dict(crlf='\r\n', cr='\r', win='\r\n').get(enc, '\n')
+    if enc == 'mixed':
+        text = ''.join(ln + ('\r\n' if k % 3 else '\n') for k, ln in enumerate(lines))
+    else:
+        text = eol.join(lines) + ('' if enc in ('noeol', 'win') else eol)
+    return text.encode('utf-8')
+
+
+#: the base name of the job: dots, a blank, dash/underscore, capitals, a leading digit, a character outside ASCII in it
+NAMES_MORE = ['c19job.v2', 'c19.job_1.2.final', 'c19 job', 'C19-Job_a', '2c19job', 'c19j\xf6b']
+#: how the file is given to read_file(): 'NAME.res' / an absolute path / './NAME.res' / a pathlib.Path
+OPENS = ['str', 'abs', 'dot', 'path']
+
+
+def name_of(case):
+    return case.get('name') or NAME
+
+
+def res_arg(case):
+    name = name_of(case) + '.res'
+    how = case.get('open') or 'str'
+    if how == 'abs':
+        return os.path.abspath(name)
+    if how == 'dot':
+        return os.path.join('.', name)
+    if how == 'path':
+        import pathlib
+        return pathlib.Path(name)
+    return name
+
+
 def sha(b):
     return hashlib.sha1(b).hexdigest()[:12]
 
@@ -367,7 +426,7 @@ def doc_of(shx, labels, data=None):
         return dict(acta=None, cycles=-1, rest='unusable')
 
 
-def observe(shx, labels, pre_res):
+def observe(shx, labels, pre_res, name=NAME):
     saves = []
     if os.path.isdir('shxsaves'):
         for fn in sorted(os.listdir('shxsaves')):
@@ -377,9 +436,9 @@ def observe(shx, labels, pre_res):
     if pre_res in saves:  # set semantics: the copy of the pre-run file first, if it is there
         saves.remove(pre_res)
         saves.insert(0, pre_res)
-    ins = read(NAME + '.ins')
-    return dict(fs=dict(res=labels.raw(read(NAME + '.res'), 'r'), ins=None if ins is None else dict(written=labels.parse(ins)),
-                        bak=labels.raw(read(NAME + '.shx-bak'), 'b'), hkl=os.path.exists(NAME + '.hkl'), saves=saves),
+    ins = read(name + '.ins')
+    return dict(fs=dict(res=labels.raw(read(name + '.res'), 'r'), ins=None if ins is None else dict(written=labels.parse(ins)),
+                        bak=labels.raw(read(name + '.shx-bak'), 'b'), hkl=os.path.exists(name + '.hkl'), saves=saves),
                 mem=dict(doc=doc_of(shx, labels), dow=False, skew=0, lay=lay_of(shx, labels)))
 
 
@@ -391,28 +450,29 @@ def play(case, bindir, root):
     old_path = os.environ.get('PATH', '')
     labels = Labels()
     steps = []
+    name = name_of(case)
     try:
         os.chdir(work)
         os.environ['PATH'] = bindir + os.pathsep + old_path
-        text = file_text(case['file']).encode()
-        with open(NAME + '.res', 'wb') as fh:
+        text = file_bytes(case['file'])
+        with open(name + '.res', 'wb') as fh:
             fh.write(text)
         if case.get('hkl', True):
-            with open(NAME + '.hkl', 'w') as fh:
+            with open(name + '.hkl', 'w') as fh:
                 fh.write('   1   0   0    1.00    1.00\n   0   0   0    0.00    0.00\n')
         if case.get('stale_bak'):
-            with open(NAME + '.shx-bak', 'w') as fh:
+            with open(name + '.shx-bak', 'w') as fh:
                 fh.write(STALE)
         os.mkdir('c19_log')
         out = io.StringIO()
         with contextlib.redirect_stdout(out):
             shx = Shelxfile()
-            shx.read_file(NAME + '.res')
-        init = observe(shx, labels, None)
+            shx.read_file(res_arg(case))
+        init = observe(shx, labels, None, name)
         init['mem']['dow'] = dow_of(text)
         for k, call in enumerate(case['calls']):
             if 'op' in call:
-                rec = between(shx, call, labels, out)
+                rec = between(shx, call, labels, out, case)
                 if rec is not None:
                     steps.append(dict(rec, item=call, k=k))
                 continue
@@ -421,11 +481,11 @@ def play(case, bindir, root):
                 fh.write(f'EXIT={call["exit"]}\nRES={call["res"]}\nRUN={k}\n'
                          f"LST='{'-' if lst is None else lst if lst == 'DIR' else printf_format(lst)}'\n"
                          f"CON='{printf_format(CON_BYTES[call.get('con', 'banner')])}'\n")
-            if os.path.isdir(NAME + '.lst'):          # the list file of the run before: SHELXL starts a new one
-                os.rmdir(NAME + '.lst')
-            elif os.path.exists(NAME + '.lst'):
-                os.remove(NAME + '.lst')
-            pre_res = labels.raw(read(NAME + '.res'), 'r')
+            if os.path.isdir(name + '.lst'):          # the list file of the run before: SHELXL starts a new one
+                os.rmdir(name + '.lst')
+            elif os.path.exists(name + '.lst'):
+                os.remove(name + '.lst')
+            pre_res = labels.raw(read(name + '.res'), 'r')
             raised = None
             ret = None
             with contextlib.redirect_stdout(out):
@@ -437,7 +497,7 @@ def play(case, bindir, root):
                     raised = type(e).__name__
             os.chdir(work)
             ran = os.path.exists(f'c19_log/ran_{k}')
-            rec = dict(item=call, k=k, obs=observe(shx, labels, pre_res), raised=raised, ret=ret, ran=ran,
+            rec = dict(item=call, k=k, obs=observe(shx, labels, pre_res, name), raised=raised, ret=ret, ran=ran,
                        ins_at_run=None, bak_at_run=None, pre_res=pre_res)
             if ran:
                 d = read(f'c19_log/ins_{k}')
@@ -448,6 +508,8 @@ def play(case, bindir, root):
                 rec['res_out'] = 'untouched'
             elif call['res'] == 'missing':
                 rec['res_out'] = 'removed'
+            elif read(f'c19_log/res_{k}') is None:     # it was started without the <name>.ins it derives the result from
+                rec['res_out'] = 'untouched'
             else:
                 rec['res_out'] = dict(wrote=labels.label(read(f'c19_log/res_{k}'), 'g'))
             steps.append(rec)
@@ -458,18 +520,19 @@ def play(case, bindir, root):
     return labels, init, steps
 
 
-def between(shx, op, labels, out):
+def between(shx, op, labels, out, case):
     """what the user does to the object between two refine() calls: `reload` = shx.reload() of the .res as it is;
     `reread` = the .res is rewritten (another program, an editor) and read with read_file(). Returns None when the
     step is not possible (no usable .res to reload)."""
     write = None
+    name = name_of(case)
     if op['op'] == 'reload':
-        cur = read(NAME + '.res')
+        cur = read(name + '.res')
         if cur is None or labels.parse(cur)['cycles'] == -1:
             return None
     else:
-        data = file_text(op['file']).encode()
-        with open(NAME + '.res', 'wb') as fh:
+        data = file_bytes(op['file'])
+        with open(name + '.res', 'wb') as fh:
             fh.write(data)
         write = labels.label(data, 'u')
     raised = None
@@ -478,12 +541,12 @@ def between(shx, op, labels, out):
             if op['op'] == 'reload':
                 shx.reload()
             else:
-                shx.read_file(NAME + '.res')
+                shx.read_file(res_arg(case))
         except BaseException as e:
             if isinstance(e, KeyboardInterrupt):
                 raise
             raised = type(e).__name__
-    return dict(op=True, write=write, raised=raised, obs=observe(shx, labels, None))
+    return dict(op=True, write=write, raised=raised, obs=observe(shx, labels, None, name))
 
 
 def request(case, labels, init, steps):
@@ -577,7 +640,9 @@ def judge(ctx, case, init, steps, ans):
                     model=dict(st=mst, exc=mod['exc']), spec=spec, pre=pre)
         tags = [f'outcome={oc}', f'lst={call["lst"]}', f'backup={call["backup"]}', f'acta={acta}', f'step={k}',
                 f'cycles={"keep" if call["cycles"] is None else "set"}', f'raised={rec["raised"]}',
-                f'con={call.get("con", "banner")}', f'layout={f.get("lay") or "plain"}', f'acta_at={f["acta"]}']
+                f'con={call.get("con", "banner")}', f'layout={f.get("lay") or "plain"}', f'acta_at={f["acta"]}',
+                f'bytes={f.get("enc") or "lf"}', f'name={"plain" if name_of(case) == NAME else "other"}',
+                f'open={case.get("open") or "str"}']
         ctx.count(['call', sub], nontrivial=rec['ran'], tags=tags,
                   sample=dict(stream='protocol', calls=sub['calls'], acta=f['acta'], raised=rec['raised'],
                               res_after=obs['fs']['res'], bak_after=obs['fs']['bak'], mem_acta=obs['mem']['doc']['acta'])
@@ -653,8 +718,10 @@ def judge(ctx, case, init, steps, ans):
         pre = obs
 
 
-def mk_file(acta, nfv=3, cgls=False, ls=None, acta_text=None, lay=None):
+def mk_file(acta, nfv=3, cgls=False, ls=None, acta_text=None, lay=None, enc=None):
     f = dict(acta=acta, nfv=nfv, cgls=cgls)
+    if enc and enc != 'lf':
+        f['enc'] = enc
     if ls:
         f['ls'] = ls
         f['cgls'] = ls[0] == 'CGLS'
@@ -718,10 +785,46 @@ def console_cases(thorough):
     return out
 
 
+def bytes_cases(thorough):
+    """the bytes of the file the user starts from (line ends, final line end, UTF-8, trailing blanks) x one outcome of each
+    kind x backup, then a second call on what the first left; and results written with CR LF by the program, followed by
+    a run that fails: what is backed up, restored and left alone is compared by content, byte for byte"""
+    out = []
+    for i, (enc, (ex, res), backup) in enumerate(itertools.product(ENC_MORE, CORE_OUT, [True, False])):
+        for acta in (['none', 'later', 'after_unit'] if thorough else [['later', 'none', 'after_unit'][i % 3]]):
+            second = mk_call(*[(1, 'good'), (0, 'good'), (0, 'empty'), (0, 'crlf')][i % 4], backup=(i % 3 != 2))
+            out.append(dict(file=mk_file(acta, enc=enc, nfv=9 if i % 7 == 3 else 3,
+                                         lay=LAYOUT_NAMES[i % len(LAYOUT_NAMES)] if i % 5 == 1 else None),
+                            stale_bak=(i % 4 == 1), hkl=True,
+                            calls=[mk_call(ex, res, lst=LST_MAIN[i % len(LST_MAIN)], backup=backup, cycles=[None, 6][i % 2]), second]))
+    for i, ((ex, res), backup, acta) in enumerate(itertools.product(CORE_OUT[2:] + [(3, 'garbage'), (1, 'untouched'), (0, 'crlf')],
+                                                                    [True, False], ['none', 'later'])):
+        out.append(dict(file=mk_file(acta, enc=ENCODINGS[i % len(ENCODINGS)]), stale_bak=False, hkl=True,
+                        calls=[mk_call(0, 'crlf', backup=backup, cycles=4), mk_call(ex, res, backup=(i % 3 != 0))]))
+    return out
+
+
+def name_cases(thorough):
+    """the base name of the job (dots, a blank, capitals, ...) x how the file is given to read_file() x one outcome of
+    each kind x backup, then a good run on the same object"""
+    out = []
+    for i, (name, (ex, res), backup) in enumerate(itertools.product(NAMES_MORE, CORE_OUT, [True, False])):
+        for how in (OPENS if thorough else [OPENS[i % len(OPENS)]]):
+            out.append(dict(file=mk_file(['later', 'none', 'after_unit', 'last'][i % 4], enc=ENCODINGS[i % len(ENCODINGS)] if i % 3 == 0 else None),
+                            stale_bak=(i % 4 == 1), hkl=True, name=name, open=how,
+                            calls=[mk_call(ex, res, lst=LST_MAIN[i % len(LST_MAIN)], backup=backup, cycles=[5, None][i % 2]),
+                                   mk_call(0, ['good', 'relaid', 'crlf'][i % 3], backup=(i % 5 != 4))]))
+    for i, (how, (ex, res), backup) in enumerate(itertools.product(OPENS[1:], CORE_OUT, [True, False])):   # the usual name
+        out.append(dict(file=mk_file(['later', 'none'][i % 2]), stale_bak=False, hkl=True, open=how,
+                        calls=[mk_call(ex, res, backup=backup, cycles=3), mk_call(0, 'good', backup=backup)]))
+    return out
+
+
 BETWEEN = [dict(op='reload'),
            dict(op='reread', file=mk_file('none', nfv=4)),
            dict(op='reread', file=mk_file('later', nfv=4, acta_text='ACTA 45', lay='blank_sfac')),
-           dict(op='reread', file=mk_file('after_unit', nfv=5, ls=['L.S.', 6, 0, 12], lay='sfac_cont'))]
+           dict(op='reread', file=mk_file('after_unit', nfv=5, ls=['L.S.', 6, 0, 12], lay='sfac_cont')),
+           dict(op='reread', file=mk_file('later', nfv=2, enc='win'))]
 BETWEEN_OUT = [(0, 'good', 'good'), (1, 'good', 'good'), (0, 'empty', 'good'), (-11, 'truncated', 'missing')]
 
 
@@ -814,23 +917,29 @@ def random_cases(rng, n):
             if j and rng.random() < 0.3:
                 calls.append(rng.choice(BETWEEN))
             ex = rng.choice([0, 0, 0] + EXIT_MAIN + EXIT_MORE)
-            calls.append(mk_call(ex, rng.choice(RES_OK if ex == 0 else RES_ALL), rng.choice(list(LST_BYTES)),
+            calls.append(mk_call(ex, rng.choice((RES_OK if ex == 0 else RES_ALL) + ['crlf']), rng.choice(list(LST_BYTES)),
                                  rng.random() < 0.7, rng.choice([None, 0, 2, 9]), rng.choice(cons)))
         out.append(dict(file=mk_file(rng.choice(['none', 'later', 'after_unit', 'last']), nfv=rng.choice([1, 3, 9]),
                                      ls=rng.choice(LS_FORMS), lay=rng.choice(LAYOUT_NAMES),
-                                     acta_text=rng.choice([None, 'ACTA', 'ACTA 45 NOHKL'])),
+                                     acta_text=rng.choice([None, 'ACTA', 'ACTA 45 NOHKL']),
+                                     enc=rng.choice(['lf'] * 3 + ENC_MORE)),
                         stale_bak=rng.random() < 0.2, hkl=rng.random() < 0.95, calls=calls))
+        if rng.random() < 0.4:
+            out[-1]['name'] = rng.choice(NAMES_MORE)
+        if rng.random() < 0.4:
+            out[-1]['open'] = rng.choice(OPENS[1:])
     return out
 
 
 def run(ctx):
     ctx.rule = ('one case = a freshly read file (ACTA absent / directly after UNIT / two lines later / last before FVAR; one or '
                 'two FVAR lines; L.S. or CGLS in every parameter form; 11 shapes: blank lines at six places, SFAC continued or '
-                'repeated, SYMM lines, a continuation line behind UNIT, SHELXL\'s own header lines and Q-peaks) in a directory '
+                'repeated, SYMM lines, a continuation line behind UNIT, SHELXL\'s own header lines and Q-peaks; bytes LF / CR LF / CR / mixed / no final line end / UTF-8 / trailing blanks; base name c19job or one with '
+                'dots, a blank, capitals, a leading digit, a non-ASCII letter; path relative / absolute / ./ / pathlib.Path) in a directory '
                 '(with or without an old .shx-bak, with or without .hkl) + 1..3 refine() calls (optionally with a '
                 'reload()/read_file() of a rewritten .res between them), each with an outcome of the stand-in (status 0 / exit '
                 '1,3,127,255 / killed by signal 6,9,11,15 x .res written from .ins / in SHELXL\'s layout / empty / removed / '
-                'untouched / garbage / truncated x .lst good / 8-bit / CRLF / missing / a directory / short / empty / no-LATT / '
+                'written with CR LF / untouched / garbage / truncated x .lst good / 8-bit / CRLF / missing / a directory / short / empty / no-LATT / '
                 'no-final / binary / zero parameters / low ratio x output banner / full / none / 8-bit / binary / short R1 / '
                 '"cannot open hkl"), backup on/off, cycles None/0/2..9; one evaluation per call, distinct by the history up to '
                 'it; non-trivial = the stand-in was actually started in that call')
@@ -869,7 +978,7 @@ def run(ctx):
                 calls[i % len(calls)] = dict(calls[i % len(calls)], con=CON_MORE[(i // 3) % len(CON_MORE)])
             cases.append(dict(file=mk_file(acta, lay=LAYOUT_NAMES[i % len(LAYOUT_NAMES)] if i % 2 else None),
                               stale_bak=(i % 7 == 3), hkl=True, calls=calls))
-    extra = (layout_cases(thorough) + console_cases(thorough) + ls_cases(thorough) +
+    extra = (bytes_cases(thorough) + name_cases(thorough) + layout_cases(thorough) + console_cases(thorough) + ls_cases(thorough) +
              between_cases(ctx.rng, thorough, 120 if thorough else 30 * more))
     rnd = random_cases(ctx.rng, 1500 if thorough else 60 * more)
     ctx.extra['single_calls'] = n_single
@@ -877,6 +986,9 @@ def run(ctx):
     ctx.extra['between'] = 'refine / reload or read_file of a rewritten .res (no ACTA, another ACTA, ACTA after UNIT) / refine'
     ctx.extra['layouts'] = f'{len(LAYOUT_NAMES)} file shapes x 3 places of ACTA x outcome classes, two calls each'
     ctx.extra['console'] = f'{len(CON_MORE)} kinds of output x {len(CORE_OUT)} outcome classes x backup'
+    ctx.extra['bytes'] = (f'{len(ENC_MORE)} byte forms of the file (CR LF, CR, mixed, no final line end, UTF-8, trailing blanks, all of it) '
+                          f'x {len(CORE_OUT)} outcome classes x backup, two calls each; results written with CR LF then a failure')
+    ctx.extra['names'] = f'{len(NAMES_MORE)} base names (dots, blank, capitals, digit first, non-ASCII) x {len(OPENS)} ways to give the path x outcome classes x backup'
     ctx.extra['random'] = len(rnd)
     cases = extra + cases + rnd        # the systematic multi-step histories first, random cases last
     for i in range(0, len(cases), 400):
